@@ -1082,11 +1082,14 @@ func (vc *VC) applyContract(st *State, ct *Contract, o *types.Func, sig *types.S
 	vc.callOrd[ct.Key]++
 	site := fmt.Sprintf("%d", vc.callOrd[ct.Key])
 	if vc.contract != nil && len(vc.frames) <= 1 {
-		for _, bc := range vc.contract.Befores[ct.Key] {
-			t := vc.specBool(st, vc.entry, bc.Expr, nil, nil)
-			clause := fmt.Sprintf("%s/before:%s/assert%d", vc.fn.Key, ct.Key, bc.Ord)
-			vc.emit(st, "assert", clause, site, t, c.Pos(), bc.Src)
-			vc.assume(st, t)
+		for _, bk := range []string{ct.Key, ct.Key + "#" + site} {
+			// "before F: e" holds before every call of F; "before F#n: e" before the n-th call of F (in source order of evaluation)
+			for _, bc := range vc.contract.Befores[bk] {
+				t := vc.specBool(st, vc.entry, bc.Expr, nil, nil)
+				clause := fmt.Sprintf("%s/before:%s/assert%d", vc.fn.Key, bk, bc.Ord)
+				vc.emit(st, "assert", clause, site, t, c.Pos(), bc.Src)
+				vc.assume(st, t)
+			}
 		}
 	}
 	// requires
